@@ -666,6 +666,7 @@ func (g *genCtx) history(w *CaseWriter, r *Rng, id int64, mode string) error {
 		probes = append(probes, string(ocispec.DescriptorEmptyJSON.Digest))
 	}
 	seenDg := map[string]bool{}
+	var tableMaps []map[string]string
 	for _, p := range probes {
 		d, err := repo.Resolve(ctx, p)
 		if err != nil {
@@ -678,6 +679,9 @@ func (g *genCtx) history(w *CaseWriter, r *Rng, id int64, mode string) error {
 		}
 		tableTerms = append(tableTerms, CPair(CStr(p), CApp("mk_desc", CStr(d.MediaType), CStr(string(d.Digest)), CZ(d.Size), CStr(restOf(d)), aref)))
 		hd.Table[p] = d.Annotations
+		if d.Annotations != nil {
+			tableMaps = append(tableMaps, d.Annotations)
+		}
 		isBad := false
 		if p != string(d.Digest) {
 			if _, e := digest.Parse(p); e == nil {
@@ -1006,8 +1010,23 @@ func (g *genCtx) history(w *CaseWriter, r *Rng, id int64, mode string) error {
 	hd.Calls = calls
 	w.Count("calls_per_history", fmt.Sprint(len(calls)))
 
-	// Go-side check of the files of the layout
-	if mode == "oci" {
+	// Go-side check of the files of the layout (within the input contract wf of the model
+	// only: a signer whose PluginAnnotations() is one of the repository's own maps makes
+	// generateAnnotations write into the repository)
+	contract := true
+	for _, c := range calls {
+		if c.PA == "map" {
+			for _, t := range tableMaps {
+				if mapPtr(t) == mapPtr(c.pa) {
+					contract = false
+				}
+			}
+		}
+	}
+	if !contract {
+		w.Count("outside_contract", "signer returns a repository map")
+	}
+	if mode == "oci" && contract {
 		final := diskView(ctx, ociDir, probes)
 		for _, p := range probes {
 			if initialView[p] != final[p] {
